@@ -284,6 +284,54 @@ fn do_att(t: &[&str]) -> String {
         get_pawn_attack_table(sq, Color::White).to_u64(), get_pawn_attack_table(sq, Color::Black).to_u64())
 }
 
+// pos <game>: everything the chess-core streams compare, in one line:
+//   A <moves All in generation order> | Q <moves Quiescence> | L <is_legal bits for A> | LQ <bits for Q> |
+//   M <for each A move: I or the 21 game fields joined by ','> | E <evaluate> | K <from-scratch key> | C <in check> | P1 <perft 1> P2 <perft 2>
+fn do_pos(t: &[&str]) -> String {
+    let mut g = parse_game(t);
+    let mut out = String::new();
+    let all = generate_moves(&mut g, MoveTypes::All);
+    let q = generate_moves(&mut g, MoveTypes::Quiescence);
+    out.push_str("A");
+    for m in all.iter() { write!(out, " {}", move_fields(m)).unwrap(); }
+    out.push_str(" | Q");
+    for m in q.iter() { write!(out, " {}", move_fields(m)).unwrap(); }
+    out.push_str(" | L ");
+    for m in all.iter() { out.push(if is_legal(&g, m) { '1' } else { '0' }); }
+    out.push_str(" | LQ ");
+    for m in q.iter() { out.push(if is_legal(&g, m) { '1' } else { '0' }); }
+    out.push_str(" | M");
+    let mut mk = String::new();
+    for m in all.iter() {
+        let mut c = g;
+        let mut rep = RepetitionTable::new();
+        if make_search_move(&mut c, m, &mut rep) {
+            write!(out, " {}", game_fields(&c).replace(" ", ",")).unwrap();
+            if rep.index != 1 || rep.table[0] != c.zobrist_hash { out.push_str("!REP"); }
+            write!(mk, " {:x}", c.make_zobrist_hash()).unwrap();
+        } else { out.push_str(" I"); mk.push_str(" -"); }
+    }
+    out.push_str(" | MK"); out.push_str(&mk);
+    write!(out, " | E {} | K {:x} | C {}", evaluate(&g), g.make_zobrist_hash(), g.is_in_check(g.active_player) as u8).unwrap();
+    let p1 = perft(&mut g, 1, false);
+    let p2 = perft(&mut g, 2, false);
+    write!(out, " | P {} {}", p1, p2).unwrap();
+    out
+}
+
+// perft <depth> <game>
+fn do_perft(t: &[&str]) -> String {
+    let d: u8 = t[0].parse().unwrap();
+    let mut g = parse_game(&t[1..]);
+    format!("{}", perft(&mut g, d, false))
+}
+
+// eval4 <game>: evaluate only
+fn do_eval(t: &[&str]) -> String {
+    let g = parse_game(t);
+    format!("{}", evaluate(&g))
+}
+
 fn do_batch() {
     let stdin = std::io::stdin();
     let stdout = std::io::stdout();
@@ -298,6 +346,9 @@ fn do_batch() {
             "tt" => do_tt(&toks[1..], &mut tt),
             "go" => do_go(&toks[1..], &mut tt),
             "att" => do_att(&toks[1..]),
+            "pos" => { let tk: Vec<String> = toks[1..].iter().map(|x| x.to_string()).collect(); catch(move || { let r: Vec<&str> = tk.iter().map(|x| x.as_str()).collect(); do_pos(&r) }) },
+            "perft" => { let tk: Vec<String> = toks[1..].iter().map(|x| x.to_string()).collect(); catch(move || { let r: Vec<&str> = tk.iter().map(|x| x.as_str()).collect(); do_perft(&r) }) },
+            "eval" => { let tk: Vec<String> = toks[1..].iter().map(|x| x.to_string()).collect(); catch(move || { let r: Vec<&str> = tk.iter().map(|x| x.as_str()).collect(); do_eval(&r) }) },
             _ => format!("BADREQ {}", toks[0]),
         };
         writeln!(out, "{}", ans).unwrap();
